@@ -13,7 +13,7 @@ Tails == UNION {{Zeros(j), Nines(j)} \cup (IF j > 0 THEN {Zeros(j-1) \o <<1>>, N
 Heads == {OfNat(n) : n \in 1..MaxSmall} \cup {<<9,9,9,9,9,9,9,9>>, <<1,0,0,0,0,0,0,0,0>>, <<5,9,9,9,9,9,9,9,9>>, <<6>>, <<3,6>>, <<3,5,9,9,9,9,9,9,9,9>>}
 DomT == {d \in {Strip(h \o t) : h \in Heads, t \in Tails} : Cmp(d, MaxInt64) <= 0 /\ d # <<0>>}
           \cup {MaxInt64, DropK(MaxInt64, 0)}
-Alphabet == {97, 37, 52, 49, 32, 126, 127, 31, 195, 169, 255, 128}
+Alphabet == {97, 37, 52, 49, 32, 126, 127, 31, 195, 169, 255, 128, 239, 191, 189}
 DomM == UNION {[1..n -> Alphabet] : n \in 0..MsgLen}
 
 Init == \/ (kind = "timeout" /\ x \in DomT)
